@@ -9,6 +9,7 @@ def load(p):
             f=l.rstrip('\n').split('\t')
             if len(f)>=3:
                 res.setdefault(f[0],{})[f[1]]=f[2]
+                if f[1]!='-': res[f[0]].pop('-',None)
     return res
 ids=[f"C{n:02d}" for n in range(1,19)]
 def table(res, title, own_of):
